@@ -8,8 +8,8 @@ import (
 
 func init() {
 	register(&propCheck{
-		ID:  "C13",
-		Run: runC13,
+		ID:    "C13",
+		Run:   runC13,
 		Level: "Static analysis (write-effect summaries from the abstract interpreter). Decides, for every Len / MarshalBinary / Read of every kind, that each store it performs (directly, through inlined helpers, or through the size functions and child encoders it calls) into memory reachable from the receiver has an idempotent form — a constant, a pure function of state the method does not write, f = round8(f), or a clamp — and that no call on receiver-rooted state reaches a standard-library mutator (bytes.Buffer Read/Write/Reset…, append into a receiver slice, copy into a receiver slice). With idempotent stores and everything else read-only, repeated and interleaved sizing/encoding return equal results. Not decided: builder calls after sizing; concurrent use (C14).",
 		Assumptions: []string{
 			"closed world: implementations of util.Message outside the module are out of scope",
@@ -23,7 +23,7 @@ var readOnlyStd = map[string]bool{
 	"(*bytes.Buffer).Len": true, "(*bytes.Buffer).Bytes": true, "(*bytes.Buffer).String": true, "(*bytes.Buffer).Cap": true, "(*bytes.Buffer).Available": true,
 	"(net.IP).To4": true, "(net.IP).To16": true, "(net.IP).String": true, "(net.IP).Equal": true, "(net.IP).IsUnspecified": true,
 	"(net.HardwareAddr).String": true,
-	"(*math/big.Int).BitLen": true, "(*math/big.Int).Bytes": true, "(*math/big.Int).Cmp": true, "(*math/big.Int).Sign": true, "(*math/big.Int).String": true,
+	"(*math/big.Int).BitLen":    true, "(*math/big.Int).Bytes": true, "(*math/big.Int).Cmp": true, "(*math/big.Int).Sign": true, "(*math/big.Int).String": true,
 	"(encoding/binary.bigEndian).PutUint16": true, "(encoding/binary.bigEndian).PutUint32": true, "(encoding/binary.bigEndian).PutUint64": true,
 	"(encoding/binary.bigEndian).Uint16": true, "(encoding/binary.bigEndian).Uint32": true, "(encoding/binary.bigEndian).Uint64": true,
 	"(encoding/binary.littleEndian).PutUint16": true, "(encoding/binary.littleEndian).PutUint32": true, "(encoding/binary.littleEndian).PutUint64": true,
